@@ -243,19 +243,39 @@ def handlePaths (t : List String) : String :=
           let r2 := verifyBatch toy root op'.idxs p2
           s!"prove=ok {into} from=ok same={boolStr same} lens={lensStr p2.nodes} d={p2.depth} h={proofCks p2.leaves p2.nodes} verify={unitStr r2}"
 
+/-- the toy digest is written as 8 little-endian bytes -/
+def leBytes8 (v : Nat) : List Nat := (List.range 8).map (fun i => v / 256 ^ i % 256)
+def ofLeBytes (bs : List Nat) : Nat := bs.foldr (fun b acc => b + 256 * acc) 0
+
+def toyCodec : Codec Nat :=
+  { enc := leBytes8,
+    dec := fun bytes => if bytes.length < 8 then .error .eof else .ok (ofLeBytes (bytes.take 8), bytes.drop 8) }
+
 def handleSer (t : List String) : String :=
   match openBatch t with
   | .error s => s
   | .ok (_, op, m) =>
-    let full := 1 + (op.nodes.map (fun r => 1 + 8 * r.length)).foldl (· + ·) 0
-    match m with
-    | ["none"] => s!"len={full} de=ok same=1 rest=0"
-    | ["extra"] => s!"len={full} de=ok same=1 rest=1"
-    | ["cut", k] =>
-      match u64? k with
-      | some k => if k < full then s!"len={full} de=err" else "bad-op"
+    match serializeNodes toyCodec op.proof with
+    | .panic _ => "ser=panic"
+    | .err _ => "ser=panic"
+    | .ok bytes =>
+      let full := bytes.length
+      let mutated : Option (List Nat) :=
+        match m with
+        | ["none"] => some bytes
+        | ["extra"] => some (bytes ++ [7])
+        | ["cut", k] =>
+          match u64? k with
+          | some k => if k < full then some (bytes.take k) else none
+          | none => none
+        | _ => none
+      match mutated with
       | none => "bad-op"
-    | _ => "bad-op"
+      | some bs =>
+        match deserialize toyCodec bs op.leaves op.depth with
+        | .error _ => s!"len={full} de=err"
+        | .ok (p2, rest) =>
+          s!"len={full} de=ok same={boolStr (decide (p2 = op.proof))} rest={boolStr (!rest.isEmpty)}"
 
 def realHashers : List String :=
   ["blake3_256", "blake3_192", "sha3_256", "rp64_256", "rpjive64_256", "rp62_248"]
